@@ -589,7 +589,7 @@ def mk_app(f, args=(), kw=()):
                 and str(a.args[1].v).lower() in ("ascii", "utf-8", "utf8", "latin-1"):
             return mk_app("binascii.unhexlify", (a.args[0],))   # unhexlify accepts ASCII str and bytes alike
         if is_app(a, "hexw"):
-            return App("int2be", a.args)               # unhexlify("%0{2W}x" % v) == v.to_bytes(W, "big") for 0 <= v < 256^W
+            return mk_app("int2be", a.args)            # unhexlify("%0{2W}x" % v) == v.to_bytes(W, "big") for 0 <= v < 256^W
         return App("unhex", args)
     if f == "hexs" and n == 1 and isinstance(args[0], Const) and isinstance(args[0].v, bytes):
         import binascii
@@ -662,9 +662,12 @@ def mk_app(f, args=(), kw=()):
         return Const(int.from_bytes(args[0].v, "big"))
     if f == ".to_bytes" and n == 3 and ty_of(args[0]) == "int" and isinstance(args[2], Const) and not kw:
         if args[2].v == "big":
-            return App("int2be", (args[0], args[1]))
+            return mk_app("int2be", (args[0], args[1]))
         if args[2].v == "little":
-            return mk_app("rev", (App("int2be", (args[0], args[1])),))
+            return mk_app("rev", (mk_app("int2be", (args[0], args[1])),))
+    if f == "int2be" and n == 2 and not kw and all(isinstance(a, Const) and isinstance(a.v, int) and not isinstance(a.v, bool) for a in args) \
+            and 0 <= args[1].v <= 1024 and 0 <= args[0].v < 256 ** args[1].v:
+        return Const(args[0].v.to_bytes(args[1].v, "big"))
     if f == "rev" and n == 1:
         a = args[0]
         if is_app(a, "rev"):
@@ -806,6 +809,8 @@ def mk_app(f, args=(), kw=()):
             return dict(a.args[0].kw)["length"]         # HKDF output has exactly `length` bytes
         if is_app(a, "rev"):
             return mk_app("len", a.args)
+        if is_app(a, "int2be") and len(a.args) == 2:
+            return a.args[1]                            # the fixed-width encoding has exactly its width
         return App(f, args)
     if f == "bool" and n == 1:
         a = args[0]
